@@ -45,6 +45,30 @@ def step (s : St) (ws : List String) : St × String :=
           | .ok c => let s' := { s with ctx := c }; (s', dump "ok" s')
           | .error e => (s, dump (errStr e) s)
       | _, _ => (s, "bad-op")
+  | "setcparams" :: vs =>
+      if s.kind != 'c' then (s, dump "bad-op" s) else
+      match setCParams cparams s.ctx (vs.map (fun v => v.toInt?.getD 0)) with
+      | .ok c => let s' := { s with ctx := c }; (s', dump "ok" s')
+      | .error e => (s, dump (errStr e) s)
+  | "setfparams" :: vs =>
+      if s.kind != 'c' then (s, dump "bad-op" s) else
+      match setFParams cparams s.ctx (vs.map (fun v => v.toInt?.getD 0)) with
+      | .ok c => let s' := { s with ctx := c }; (s', dump "ok" s')
+      | .error e => (s, dump (errStr e) s)
+  | "setparams" :: vs =>
+      if s.kind != 'c' then (s, dump "bad-op" s) else
+      let xs := vs.map (fun v => v.toInt?.getD 0)
+      match setParamsAll cparams s.ctx (xs.take 7) (xs.drop 7) with
+      | .ok c => let s' := { s with ctx := c }; (s', dump "ok" s')
+      | .error e => (s, dump (errStr e) s)
+  | ["dframe", dmg, _] =>
+      if s.kind != 'd' then (s, dump "bad-op" s) else
+      -- a checksummed frame decoded with the parameters in force: a damaged checksum is reported unless ZSTD_d_forceIgnoreChecksum (1002) is set
+      let ign : Int := match indexOfId dparams 1002 with
+        | some k => (s.ctx.vals[k]?).getD 0
+        | none => 0
+      let s' := { s with ctx := endFrame s.ctx }
+      (s', dump (if dmg != "0" && ign == 0 then "err:checksum" else "ok") s')
   | ["start"] => let s' := if s.kind == 'p' then s else { s with ctx := startFrame s.ctx }; (s', dump "ok" s')
   | ["end"] => let s' := if s.kind == 'p' then s else { s with ctx := endFrame s.ctx }; (s', dump "ok" s')
   | ["reset", r] =>
